@@ -381,6 +381,20 @@ def do_replay(pid, path, ctx, props, impl, tables):
         print("replay names a broken obligation, not an input: %s" % json.dumps(r.get("no_longer_checks"))[:500])
         return 1
     line, extra = r["input"]["line"], r["input"].get("extra", {})
+    if "threads" in extra or "table" in extra:
+        # C13 direct check: run the recorded corpus again (concurrently / watching the tables)
+        corpus = extra.get("corpus") or [line]
+        ref = {l: impl.eval_guarded(l) for l in corpus}
+        before = props._table_digest()
+        seen, errs = props.threads_run(corpus, int(extra.get("threads", 8)), int(extra.get("reps", 3)), 1)
+        after = props._table_digest()
+        bad = [l for l in corpus if any(o != ref[l] for o in seen[l])]
+        if bad or errs or before != after:
+            print("VIOLATION property=%s replay=%s" % (pid, path))
+            print("  %d ops with a differing concurrent result; tables changed: %s" % (len(bad), before != after))
+            return 1
+        print("replay passes (the interleaving that failed did not recur in this run)")
+        return 0
     if "history" in extra:
         import subprocess
         hist = extra["history"]
